@@ -75,7 +75,7 @@ func (re *Regexp) Find(b []byte) []byte {
 	if loc == nil {
 		return nil
 	}
-	return b[loc[0]:loc[1]]
+	return b[loc[0]:loc[1]:loc[1]]
 }
 
 // FindIndex returns a two-element slice defining the location of the leftmost
@@ -130,7 +130,7 @@ func (re *Regexp) FindSubmatch(b []byte) [][]byte {
 	for i := range out {
 		start, end := loc[2*i], loc[2*i+1]
 		if start >= 0 {
-			out[i] = b[start:end]
+			out[i] = b[start:end:end]
 		}
 	}
 	return out
@@ -182,7 +182,7 @@ func (re *Regexp) FindAll(b []byte, n int) [][]byte {
 	}
 	out := make([][]byte, len(locs))
 	for i, loc := range locs {
-		out[i] = b[loc[0]:loc[1]]
+		out[i] = b[loc[0]:loc[1]:loc[1]]
 	}
 	return out
 }
@@ -233,7 +233,7 @@ func (re *Regexp) FindAllSubmatch(b []byte, n int) [][][]byte {
 		for j := range out[i] {
 			start, end := loc[2*j], loc[2*j+1]
 			if start >= 0 {
-				out[i][j] = b[start:end]
+				out[i][j] = b[start:end:end]
 			}
 		}
 	}
